@@ -186,7 +186,7 @@ Definition store_data (s : cdp_state) (w : list N) : result cdp_state :=
   | None => Ok s
   | Some rf =>
       match rf_frame rf with
-      | None => Panic SITE_store_lane_no_frame
+      | None => if Gen.Facts.data_word_without_frame_is_ignored then Ok s else Panic SITE_store_lane_no_frame
       | Some fr =>
           Ok (set_rfv s (Some {| rf_frame := Some {| fr_start := fr_start fr; fr_lanes := store_lane (fr_lanes fr) (nb 9 w) (take 9 w) |};
                                  rf_in_frame := rf_in_frame rf; rf_layer := rf_layer rf; rf_fatal_lanes := rf_fatal_lanes rf |}))
